@@ -73,14 +73,15 @@ ChangesB(dk, v, b) ==
         added == {Chg("", q, TRUE, "none", dk[q].k, FALSE, dk[q].e) : q \in {r \in Paths : v[r] = "new"}}
     IN gone \cup added \cup
        {r \in kept : r.cc \/ r.eo # r.en \/ Name(r.o) # Name(r.n) \/ Par(r.o) # ParIdCur(v, r.n)}
-\* git: per path, files only (directories are implicit, renames are remove + add)
+\* git: per path, files only (directories are implicit, renames are remove + add); the mode is part of a git tree
+\* entry, so a chmod counts as a content change (breezy/git/tree.py changes_from_git_changes: `modified`)
 ChangesG(dk, v, b) ==
     LET was(p) == b[p].k = "file"
         is(p) == v[p] # "no"
         nk(p) == IF dk[p].k = "dir" THEN "none" ELSE dk[p].k      \* an index entry whose path is no file any more
     IN {Chg(p, "", TRUE, "file", "none", b[p].e, FALSE) : p \in {q \in Paths : was(q) /\ ~is(q)}} \cup
        {Chg("", p, TRUE, "none", dk[p].k, FALSE, dk[p].e) : p \in {q \in Paths : is(q) /\ ~was(q)}} \cup
-       {r \in {Chg(p, p, dk[p].k # "file" \/ dk[p].c # b[p].c, "file", dk[p].k, b[p].e, dk[p].e)
+       {r \in {Chg(p, p, dk[p].k # "file" \/ dk[p].c # b[p].c \/ dk[p].e # b[p].e, "file", dk[p].k, b[p].e, dk[p].e)
                  : p \in {q \in Paths : is(q) /\ was(q)}} : r.cc \/ r.eo # r.en}
 Changes(dk, v, b) == IF Flavour = "bzr" THEN ChangesB(dk, v, b) ELSE ChangesG(dk, v, b)
 Obs(dk, v, b) == [view |-> View(dk, v), changes |-> Changes(dk, v, b)]
@@ -210,22 +211,28 @@ Commit == /\ TRUE /\ Step(CommitRes)
 
 \* revert(): every basis entry is back at its basis path with its basis content; files added since the basis
 \* become unversioned and stay on disk (breezy/transform.py _alter_files: keep_content), added directories are deleted
-\* when nothing is left inside; what was renamed moves back (bzr) / is left behind unversioned (git);
-\* anything in the way of a restored entry is moved aside (out of the namespace)
-RevertRes ==
+\* when nothing is left inside; what was renamed moves back; anything in the way of a restored entry is moved aside
+\* (out of the namespace).
+\* git has no identities: an added file is "renamed" when the rename detector pairs it with a deleted basis file of the
+\* same content; which pairs it forms is a heuristic, so any subset S of the candidates may move back (the
+\* versioned projection does not depend on S: the files in S are unversioned either way).
+RevertCands == IF Flavour = "bzr" THEN {}
+               ELSE {p \in Paths : /\ ver[p] # "no" /\ basis[p].k = "none" /\ disk[p].k = "file"
+                                    /\ \E q \in Paths \ {p} : basis[q].k = "file" /\ basis[q].c = disk[p].c /\ ver[q] = "no"}
+RevertRes(S) ==
     LET bt == [p \in Paths |-> IF basis[p].k = "none" /\ \E q \in Kids(p) : basis[q].k # "none" THEN DIR ELSE basis[p]]
         inB(p) == bt[p].k # "none"
-        movedHere(p) == Flavour = "bzr" /\ ver[p] \notin {"no", "new"} /\ ver[p] # p     \* goes back to its basis path
-        \* a directory added since the basis is deleted unless something stays inside it; added FILES keep their content
-        addedDir(p) == Flavour = "bzr" /\ ver[p] = "new" /\ disk[p].k = "dir"
+        movedHere(p) == IF Flavour = "bzr" THEN ver[p] \notin {"no", "new"} /\ ver[p] # p    \* goes back to its basis path
+                        ELSE p \in S
+        addedDir(p) == /\ disk[p].k = "dir"
+                       /\ IF Flavour = "bzr" THEN ver[p] = "new" ELSE ~inB(p) /\ \E q \in Kids(p) : ver[q] # "no"
         stays(p) == /\ ~inB(p) /\ Has(disk, p) /\ ~movedHere(p)
                     /\ addedDir(p) => \E q \in Kids(p) : Has(disk, q) /\ ~movedHere(q)
         d1 == [p \in Paths |-> IF inB(p) THEN bt[p] ELSE IF stays(p) THEN disk[p] ELSE NONE]
-        \* left-overs below a path that is no directory any more went away with what was moved aside;
-        \* basis children need their directory
+        \* left-overs below a path that is no directory any more went away with what was moved aside
         d2 == [p \in Paths |-> IF Par(p) # "" /\ d1[Par(p)].k # "dir" /\ ~inB(p) THEN NONE ELSE d1[p]]
     IN Res(d2, CleanVer(basis), basis, "ok")
-Revert == /\ TRUE /\ Step(RevertRes)
+Revert == \E S \in SUBSET RevertCands : Step(RevertRes(S))
 
 Reopen == /\ TRUE /\ Step(Ok(disk, ver))
 
